@@ -808,3 +808,130 @@ Proof. vm_compute. repeat split; reflexivity. Qed.
 Example do_sign_retries_r0 :
   do_sign ZOps 1 (n - sm2_Gx) [rev (to32 1)] = None.
 Proof. vm_compute. reflexivity. Qed.
+
+(* ---------------- Montgomery's trick: every slot gets the inverse of its own Z ---------------- *)
+Section BatchInvProofs.
+  Variable m : Z.
+  Hypothesis Hm : 0 < m.
+  Definition eqm (a b : Z) : Prop := a mod m = b mod m.
+  Definition lprod (l : list Z) : Z := fold_right Z.mul 1 l.
+
+  Lemma eqm_refl a : eqm a a. Proof. reflexivity. Qed.
+  Lemma eqm_trans a b c : eqm a b -> eqm b c -> eqm a c. Proof. unfold eqm; congruence. Qed.
+  Lemma eqm_mul a a' b b' : eqm a a' -> eqm b b' -> eqm (a * b) (a' * b').
+  Proof. unfold eqm. intros Ha Hb. rewrite (Z.mul_mod a b), (Z.mul_mod a' b'), Ha, Hb by lia. reflexivity. Qed.
+  Lemma mulm_eqm a b : eqm (mulm m a b) (a * b).
+  Proof. unfold eqm, mulm. apply Z.mod_mod. lia. Qed.
+  Lemma mulm_eqm2 a a' b b' : eqm a a' -> eqm b b' -> eqm (mulm m a b) (a' * b').
+  Proof. intros Ha Hb. eapply eqm_trans; [apply mulm_eqm|apply eqm_mul; assumption]. Qed.
+
+  Lemma prefs_nth zs : forall acc i, (i < length zs)%nat ->
+    eqm (nth i (prefs m acc zs) 0) (acc * lprod (firstn (S i) zs)).
+  Proof.
+    induction zs as [|z r IH]; intros acc i Hi; [cbn in Hi; lia|].
+    cbn [prefs]. destruct i as [|i].
+    - cbn [nth firstn lprod fold_right]. eapply eqm_trans; [apply mulm_eqm|].
+      replace (acc * (z * 1)) with (acc * z) by ring. apply eqm_refl.
+    - cbn [nth]. cbn [length] in Hi. eapply eqm_trans; [apply IH; lia|].
+      change (firstn (S (S i)) (z :: r)) with (z :: firstn (S i) r).
+      cbn [lprod fold_right]. fold (lprod (firstn (S i) r)).
+      replace (acc * (z * lprod (firstn (S i) r))) with (acc * z * lprod (firstn (S i) r)) by ring.
+      apply eqm_mul; [apply mulm_eqm|apply eqm_refl].
+  Qed.
+
+  Lemma f_list_nth zs i : (i < length zs)%nat ->
+    eqm (nth i (f_list m zs) 0) (lprod (firstn (S i) zs)).
+  Proof.
+    destruct zs as [|z0 r]; intros Hi; [cbn in Hi; lia|]. cbn [f_list].
+    destruct i as [|i].
+    - cbn [nth firstn lprod fold_right]. replace (z0 * 1) with z0 by ring. apply eqm_refl.
+    - cbn [nth]. cbn [length] in Hi. eapply eqm_trans; [apply prefs_nth; lia|].
+      change (firstn (S (S i)) (z0 :: r)) with (z0 :: firstn (S i) r). apply eqm_refl.
+  Qed.
+
+  Lemma g_list_length zs : length (g_list m zs) = length zs.
+  Proof.
+    induction zs as [|z r IH]; [reflexivity|]. cbn [g_list]. destruct r as [|z' r']; [reflexivity|].
+    cbn [length] in *. rewrite <- IH. reflexivity.
+  Qed.
+
+  Lemma g_list_nth zs : forall i, (i < length zs)%nat ->
+    eqm (nth i (g_list m zs) 0) (lprod (skipn i zs)).
+  Proof.
+    induction zs as [|z r IH]; intros i Hi; [cbn in Hi; lia|].
+    destruct r as [|z' r'].
+    - cbn [length] in Hi. assert (i = 0)%nat by lia. subst i. cbn [g_list nth skipn lprod fold_right].
+      replace (z * 1) with z by ring. apply eqm_refl.
+    - change (g_list m (z :: z' :: r')) with (mulm m (hd 0 (g_list m (z' :: r'))) z :: g_list m (z' :: r')).
+      destruct i as [|i].
+      + cbn [nth skipn]. cbn [lprod fold_right]. fold (lprod (z' :: r')).
+        rewrite Z.mul_comm. apply mulm_eqm2; [|apply eqm_refl].
+        assert (H0 : hd 0 (g_list m (z' :: r')) = nth 0 (g_list m (z' :: r')) 0)
+          by (destruct (g_list m (z' :: r')); reflexivity).
+        rewrite H0. apply (IH 0%nat). cbn; lia.
+      + cbn [nth skipn]. apply IH. cbn [length] in *. lia.
+  Qed.
+
+  Lemma lprod_app a b : lprod (a ++ b) = lprod a * lprod b.
+  Proof. induction a as [|x a IH]; cbn [app lprod fold_right]; [ring|]. fold (lprod (a ++ b)) (lprod a). rewrite IH. ring. Qed.
+
+  Lemma lprod_split zs i : (i < length zs)%nat ->
+    lprod zs = lprod (firstn i zs) * nth i zs 0 * lprod (skipn (S i) zs).
+  Proof.
+    intros Hi. rewrite <- (firstn_skipn i zs) at 1. rewrite lprod_app.
+    destruct (skipn i zs) as [|x t] eqn:E.
+    - apply (f_equal (@length Z)) in E. rewrite skipn_length in E. cbn in E. lia.
+    - assert (Hn : nth i zs 0 = x).
+      { rewrite <- (firstn_skipn i zs) at 1. rewrite app_nth2 by (rewrite firstn_length; lia).
+        rewrite firstn_length, E. replace (i - Nat.min i (length zs))%nat with 0%nat by lia. reflexivity. }
+      assert (Ht : skipn (S i) zs = t).
+      { replace (S i) with (1 + i)%nat by lia. rewrite <- skipn_skipn_nat_comm, E. reflexivity. }
+      rewrite Hn, Ht. cbn [lprod fold_right]. fold (lprod t). ring.
+  Qed.
+
+  (* batch_inv_correct: if the single inversion F of the total product f[N-1] is correct, every
+     slot receives the modular inverse of its own Z.  Pure ring algebra modulo m. *)
+  Theorem batch_inv_correct inv zs :
+    (2 <= length zs)%nat ->
+    (nth (length zs - 1) (f_list m zs) 0 * inv (nth (length zs - 1) (f_list m zs) 0)) mod m = 1 mod m ->
+    forall i, (i < length zs)%nat ->
+      (nth i zs 0 * nth i (batch_inv m inv zs) 0) mod m = 1 mod m.
+  Proof.
+    intros HN Hinv i Hi. unfold batch_inv. cbv zeta.
+    set (N := length zs) in *. set (F := inv (nth (N - 1) (f_list m zs) 0)) in *.
+    assert (Hnth : nth i (map (batch_slot m (f_list m zs) (g_list m zs) F N) (seq 0 N)) 0 =
+                   batch_slot m (f_list m zs) (g_list m zs) F N i).
+    { rewrite nth_indep with (d' := batch_slot m (f_list m zs) (g_list m zs) F N 0%nat)
+        by (rewrite map_length, seq_length; exact Hi).
+      rewrite map_nth, seq_nth by exact Hi. reflexivity. }
+    rewrite Hnth. clear Hnth.
+    (* the total product times F is 1 *)
+    assert (Htot : eqm (lprod zs * F) 1).
+    { eapply eqm_trans; [|exact Hinv]. apply eqm_mul; [|apply eqm_refl].
+      unfold eqm. symmetry. pose proof (f_list_nth zs (N - 1)%nat ltac:(lia)) as Hf. unfold eqm in Hf.
+      rewrite Hf. replace (S (N - 1)) with N by lia. unfold N. rewrite firstn_all. reflexivity. }
+    change ((nth i zs 0 * batch_slot m (f_list m zs) (g_list m zs) F N i) mod m = 1 mod m)
+      with (eqm (nth i zs 0 * batch_slot m (f_list m zs) (g_list m zs) F N i) 1).
+    eapply eqm_trans; [|exact Htot]. rewrite (lprod_split zs i Hi).
+    unfold batch_slot.
+    destruct (Nat.eqb i 0) eqn:E0.
+    - apply Nat.eqb_eq in E0. subst i. cbn [firstn lprod fold_right].
+      replace (1 * nth 0 zs 0 * lprod (skipn 1 zs) * F) with (nth 0 zs 0 * (lprod (skipn 1 zs) * F)) by ring.
+      apply eqm_mul; [apply eqm_refl|]. apply mulm_eqm2; [apply g_list_nth; lia|apply eqm_refl].
+    - apply Nat.eqb_neq in E0. destruct (Nat.eqb i (N - 1)) eqn:E1.
+      + apply Nat.eqb_eq in E1. subst i.
+        replace (skipn (S (N - 1)) zs) with (@nil Z) by (symmetry; apply skipn_all2; unfold N; lia).
+        cbn [lprod fold_right].
+        replace (lprod (firstn (N - 1) zs) * nth (N - 1) zs 0 * 1 * F)
+          with (nth (N - 1) zs 0 * (lprod (firstn (N - 1) zs) * F)) by ring.
+        apply eqm_mul; [apply eqm_refl|]. apply mulm_eqm2; [|apply eqm_refl].
+        replace (N - 1)%nat with (S (N - 2)) at 2 by lia. apply f_list_nth. lia.
+      + apply Nat.eqb_neq in E1.
+        replace (lprod (firstn i zs) * nth i zs 0 * lprod (skipn (S i) zs) * F)
+          with (nth i zs 0 * (lprod (skipn (S i) zs) * lprod (firstn i zs) * F)) by ring.
+        apply eqm_mul; [apply eqm_refl|]. apply mulm_eqm2; [|apply eqm_refl].
+        apply mulm_eqm2.
+        * replace (i + 1)%nat with (S i) by lia. apply g_list_nth. lia.
+        * replace i with (S (i - 1)) at 2 by lia. apply f_list_nth. lia.
+  Qed.
+End BatchInvProofs.
